@@ -18,7 +18,15 @@ def validate_locks(tracefile):
         return "EMPTY"
     exe = common.build_model()
     p = subprocess.run([exe, "lcktrace", tracefile], stdout=subprocess.PIPE, timeout=120)
-    return p.stdout.decode().strip()
+    v = p.stdout.decode().strip()
+    if "REJECT" in v:
+        # keep the rejected trace for the replay file
+        import shutil
+        os.makedirs(os.path.join(common.VERIF, "replays"), exist_ok=True)
+        keep = os.path.join(common.VERIF, "replays", "rejected-trace-%d.txt" % os.getpid())
+        shutil.copy(tracefile, keep)
+        v += " trace=" + keep
+    return v
 
 
 def snapshot_files(root):
